@@ -75,7 +75,7 @@ theorem allPairs_weaken (f g : Val → Bool) : ∀ v, allPairs f g v = true → 
   | cons h t _ iht =>
     intro hh
     cases h with
-    | pair k w => simp only [allPairs, Bool.and_eq_true] at hh ⊢; exact ⟨⟨rfl, rfl⟩, iht hh.2⟩
+    | pair k w => simp only [allPairs, Bool.and_eq_true] at hh ⊢; exact ⟨⟨trivial, trivial⟩, iht hh.2⟩
     | _ => simp [allPairs] at hh
   | nil => intro; rfl
   | _ => intro hh; simp [allPairs] at hh
@@ -83,7 +83,7 @@ theorem allPairs_weaken (f g : Val → Bool) : ∀ v, allPairs f g v = true → 
 theorem allSeq_weaken (f : Val → Bool) : ∀ v, allSeq f v = true → allSeq (fun _ => true) v = true := by
   intro v
   induction v with
-  | cons h t _ iht => intro hh; simp only [allSeq, Bool.and_eq_true] at hh ⊢; exact ⟨rfl, iht hh.2⟩
+  | cons h t _ iht => intro hh; simp only [allSeq, Bool.and_eq_true] at hh ⊢; exact ⟨trivial, iht hh.2⟩
   | nil => intro; rfl
   | _ => intro hh; simp [allSeq] at hh
 
